@@ -335,6 +335,26 @@ def run(ctx):
         ctx.saw(ts)
         ctx.check(any(fx.callee(t).endswith("::serialize_seq") for b, t in ts.calls()), "SIBLING", "C13:SIBLING:tuple-struct-delegates", "ordinary tuple structs are laid out by serialize_seq",
                   "serialize_tuple_struct no longer delegates ordinary tuple structs to the sequence layout", config, ctx.where(ts))
+        # ... and adds nothing of its own: after the sequence serializer has positioned the node, the tuple-struct path neither
+        # writes output nor touches the emitter's layout state (a line break written here is invisible to the deferred-newline
+        # branch of the element writer, which is what withdraws the inline hint staged after a composite key)
+        seqcalls = [b for b, t in ts.calls() if fx.callee(t).endswith("::serialize_seq")]
+        after = set()
+        for sb in seqcalls:
+            nxt = ts.blocks[sb]["term"].get("t")
+            if nxt is not None:
+                after |= ts.reachable([nxt])
+        touched = []
+        for b, i, s_ in ts.stmts():
+            if b in after and s_["k"] == "assign" and s_["p"]["pr"]:
+                fld = ser_field(ts, s_["p"])
+                if fld in ("pending_space_after_colon", "pending_inline_map", "after_dash_depth", "at_line_start", "last_value_was_block", "current_map_depth", "depth", "inline_map_after_dash"):
+                    touched.append("%s (line %s)" % (fld, s_.get("ln")))
+        for b, t in ts.calls():
+            if b in after and last_seg(fx.callee(t)) in ("newline", "write_indent", "write_str", "write_char", "write_space_if_pending", "write_fmt"):
+                touched.append("%s() (line %s)" % (last_seg(fx.callee(t)), t.get("ln")))
+        ctx.check(bool(seqcalls) and not touched, "SIBLING", "C13:SIBLING:tuple-struct-adds-nothing", "after delegating to serialize_seq the tuple-struct path writes nothing and leaves the layout state alone",
+                  "serialize_tuple_struct writes output / layout state of its own after delegating to serialize_seq (%s): the element writer's deferred-newline branch no longer sees the pending key and a hint staged after a composite key survives (`:\\n- 3\\n  - 4`)" % ", ".join(touched)[:200], config, ctx.where(ts))
         sv = fx.fn("<&mut ser::YamlSerializer as serde::Serializer>::serialize_struct_variant")
         tv = fx.fn("<&mut ser::YamlSerializer as serde::Serializer>::serialize_tuple_variant")
         for f in (sv, tv):
